@@ -117,27 +117,28 @@ def _const(node):
 def simplify(e, assume=()):
     """Boolean / conditional simplification that does not change the value:
     `not not x`, `x if c else x`, `True if c else False`, `(k1 if c else k2) == k`, `bool(x)` where a truth value is
-    wanted, a conditional whose test (or its negation) is among `assume`."""
-    known = {text(a) for a in assume}
+    wanted, a conditional whose test (or its negation) is among `assume` or is the test of an enclosing conditional
+    (`(a if c else b) if c else d` is `a if c else d`); `a if not c else b` is written `b if c else a`, `a if x != y else b` is written
+    `b if x == y else a`."""
 
-    def truth(n):
+    def truth(n, known):
         """n in a position where only its truth value matters"""
-        n = go(n)
+        n = go(n, known)
         while isinstance(n, ast.Call) and isinstance(n.func, ast.Name) and n.func.id == "bool" and len(n.args) == 1 \
                 and not n.keywords:
             n = n.args[0]
         return n
 
-    def go(n):
+    def go(n, known):
         if isinstance(n, ast.UnaryOp) and isinstance(n.op, ast.Not):
-            x = truth(n.operand)
+            x = truth(n.operand, known)
             if isinstance(x, ast.UnaryOp) and isinstance(x.op, ast.Not):
-                return truth(x.operand)
+                return truth(x.operand, known)
             if isinstance(x, ast.Constant) and isinstance(x.value, bool):
                 return ast.Constant(value=not x.value)
             return ast.UnaryOp(op=ast.Not(), operand=x)
         if isinstance(n, ast.BoolOp):
-            vals = [truth(v) for v in n.values]
+            vals = [truth(v, known) for v in n.values]
             is_and = isinstance(n.op, ast.And)
             out = []
             for v in vals:
@@ -152,26 +153,30 @@ def simplify(e, assume=()):
                 return out[0]
             return ast.BoolOp(op=n.op, values=out)
         if isinstance(n, ast.IfExp):
-            t = truth(n.test)
-            a, b = go(n.body), go(n.orelse)
-            tt = text(t)
+            t = truth(n.test, known)
+            tt, nt = text(t), text(mk_not(t))
             if tt in known:
-                return a
-            if text(mk_not(t)) in known:
-                return b
+                return go(n.body, known)
+            if nt in known:
+                return go(n.orelse, known)
             if isinstance(t, ast.Constant) and isinstance(t.value, bool):
-                return a if t.value else b
+                return go(n.body, known) if t.value else go(n.orelse, known)
+            a, b = go(n.body, known | {tt}), go(n.orelse, known | {nt})
             if text(a) == text(b):
                 return a
+            if isinstance(t, ast.UnaryOp) and isinstance(t.op, ast.Not):
+                t, a, b = t.operand, b, a       # `a if not c else b` is `b if c else a`
+            elif isinstance(t, ast.Compare) and len(t.ops) == 1 and isinstance(t.ops[0], ast.NotEq):
+                t, a, b = ast.Compare(left=t.left, ops=[ast.Eq()], comparators=t.comparators), b, a   # x != y
             if isinstance(a, ast.Constant) and isinstance(b, ast.Constant) \
                     and isinstance(a.value, bool) and isinstance(b.value, bool):
-                return t if a.value else go(ast.UnaryOp(op=ast.Not(), operand=t))
+                return t if a.value else go(ast.UnaryOp(op=ast.Not(), operand=t), known)
             r = ast.IfExp(test=t, body=a, orelse=b)
             if hasattr(n, "_src"):
                 r._src = n._src
             return r
         if isinstance(n, ast.Compare) and len(n.ops) == 1 and isinstance(n.ops[0], (ast.Eq, ast.NotEq)):
-            l, r = go(n.left), go(n.comparators[0])
+            l, r = go(n.left, known), go(n.comparators[0], known)
             if isinstance(r, ast.IfExp) and isinstance(l, ast.Constant):
                 l, r = r, l
             if isinstance(l, ast.IfExp) and isinstance(r, ast.Constant) and isinstance(l.body, ast.Constant) \
@@ -183,18 +188,18 @@ def simplify(e, assume=()):
                     return ast.Constant(value=True)
                 if not ta and not tb:
                     return ast.Constant(value=False)
-                return l.test if ta else go(ast.UnaryOp(op=ast.Not(), operand=l.test))
+                return l.test if ta else go(ast.UnaryOp(op=ast.Not(), operand=l.test), known)
             return ast.Compare(left=l, ops=n.ops, comparators=[r])
         # generic descent
         n2 = copy.copy(n)
         for f, v in ast.iter_fields(n):
             if isinstance(v, ast.expr):
-                setattr(n2, f, go(v))
+                setattr(n2, f, go(v, known))
             elif isinstance(v, list) and v and all(isinstance(x, ast.expr) for x in v):
-                setattr(n2, f, [go(x) for x in v])
+                setattr(n2, f, [go(x, known) for x in v])
         return n2
 
-    return truth(copy.deepcopy(e))
+    return truth(copy.deepcopy(e), frozenset(text(a) for a in assume))
 
 
 def fold(e, leaves):
